@@ -281,6 +281,7 @@ func (x *Exec) finishObls() []*Obl {
 		if !o.Cover {
 			o.PC = x.withGlobals(o.PC)
 		}
+		canonBigApps(o)
 		o.Defs = defs.String()
 		o.DefNames = x.defOrder
 		for _, n := range x.defOrder {
@@ -351,6 +352,28 @@ func (x *Exec) checkReturn(st *State) {
 			ue.names[nm] = st.res[fmt.Sprintf("#%d", i)]
 		}
 		x.applyUses(ue, c.Uses, "ret")
+	}
+	if len(c.Checks) > 0 {
+		ue := x.localEnv(st)
+		for i, nm := range c.Results {
+			ue.names[nm] = st.res[fmt.Sprintf("#%d", i)]
+		}
+		for i, ck := range c.Checks {
+			func() {
+				defer func() {
+					if r := recover(); r != nil {
+						if ue2, ok := r.(*UnsupportedError); ok && strings.Contains(ue2.Msg, "unknown identifier") {
+							return // a local that does not exist on this path
+						}
+						panic(r)
+					}
+				}()
+				ue.where = ck.Line
+				t := ue.boolTerm(ue.expr(ck.Expr))
+				x.addObl("assert", fmt.Sprintf("check.%d", i+1), st, t, ck.Line)
+				st.assume(t)
+			}()
+		}
 	}
 	for i, en := range c.Ensures {
 		ce.where = en.Line
